@@ -60,7 +60,7 @@ type Ctx struct {
 
 func NewCtx(prop, tier string, seed int64, shard, shards int, workdir string) *Ctx {
 	c := &Ctx{Prop: prop, Tier: tier, Seed: seed, Shard: shard, Shards: shards, WorkDir: workdir,
-		maxSamp: 4, maxViol: 40, violSigs: map[string]int{}}
+		maxSamp: 4, maxViol: 400, violSigs: map[string]int{}}
 	c.res = Result{Prop: prop, Shard: shard, Counters: map[string]int64{}, Distinct: map[string]bool{}}
 	f, err := os.OpenFile(filepath.Join(workdir, "begin.log"), os.O_CREATE|os.O_WRONLY|os.O_APPEND, 0644)
 	if err == nil {
@@ -167,7 +167,7 @@ func (c *Ctx) Violate(sig, detail string, cas interface{}) {
 	defer c.mu.Unlock()
 	c.res.Counters["violations_observed"]++
 	c.violSigs[sig]++
-	if c.violSigs[sig] > 2 || len(c.res.Violations) >= c.maxViol {
+	if c.violSigs[sig] > 1 || len(c.res.Violations) >= c.maxViol {
 		return
 	}
 	c.res.Violations = append(c.res.Violations, Violation{Sig: sig, Detail: detail, Case: cas})
